@@ -44,6 +44,7 @@ KEYS["tv_nan"] = ("tvn", ("t", [("n", NAN), ("n", 1.0)]))
 KEYS["tv_nest"] = ("tvx", ("t", [("t", [("n", 1.0), ("n", 2.0)]), ("s", "x")]))
 UNHASHABLE = {
     "uv_tvec": "utv", "uv_vec": "uvec", "uv_tnest": "utn",
+    "u_self": "{m}", "u_selfvec": "[{m}]", "u_selftuple": "(2, [{m}])",
     "u_vec": "[1]", "u_map": "{}", "u_inst": "KI.new()", "u_tvec": "(1, [2])", "u_fn": "|| { return 1; }",
     "u_iter": "[1].iter()", "u_tnest": '((1, [2]), "x")', "u_map2": "{1: 2}", "u_fiber": "Fiber.new(|| { return 1; })",
 }
@@ -201,15 +202,18 @@ def gen_ir(seed):
             ops.append(["values", mi])
         elif x < 89:
             ops.append(["items", mi])
-        elif x < 95:
+        elif x < 94:
             ops.append(["lit", mi, [[key(), val()] for _ in range(rng.range(0, 6))]])
+        elif x < 95 and rng.chance(0.5):
+            n = rng.choice([120, 127, 128, 129, 200, 254, 255])
+            ops.append(["biglit", mi, n, rng.range(0, 3)])
         else:
             ops.append(["churn", rng.range(1, 6)])
     return {"nmaps": nmaps, "ops": ops}
 
 
-def key_expr(name):
-    return KEYS[name][0] if name in KEYS else UNHASHABLE[name]
+def key_expr(name, m="m0"):
+    return KEYS[name][0] if name in KEYS else UNHASHABLE[name].replace("{m}", m)
 
 
 def render(ir):
@@ -219,13 +223,13 @@ def render(ir):
         k = op[0]
         m = "m%d" % op[1] if k != "churn" else None
         if k == "insert":
-            body = 'print(("ev", %d, %s.insert(%s, %s)));' % (i, m, key_expr(op[2]), val_expr(op[3]))
+            body = 'print(("ev", %d, %s.insert(%s, %s)));' % (i, m, key_expr(op[2], m), val_expr(op[3]))
         elif k == "remove":
-            body = 'print(("ev", %d, %s.remove(%s)));' % (i, m, key_expr(op[2]))
+            body = 'print(("ev", %d, %s.remove(%s)));' % (i, m, key_expr(op[2], m))
         elif k == "get":
-            body = 'print(("ev", %d, %s.get(%s)));' % (i, m, key_expr(op[2]))
+            body = 'print(("ev", %d, %s.get(%s)));' % (i, m, key_expr(op[2], m))
         elif k == "has":
-            body = 'print(("ev", %d, %s.has_key(%s)));' % (i, m, key_expr(op[2]))
+            body = 'print(("ev", %d, %s.has_key(%s)));' % (i, m, key_expr(op[2], m))
         elif k == "clear":
             body = 'print(("ev", %d, %s.clear()));' % (i, m)
         elif k == "len":
@@ -237,8 +241,13 @@ def render(ir):
         elif k == "items":
             body = 'print(("ev", %d, "items", %s.items()));' % (i, m)
         elif k == "lit":
-            lit = "{" + ", ".join("%s: %s" % (key_expr(kk), val_expr(vv)) for kk, vv in op[2]) + "}"
+            lit = "{" + ", ".join("%s: %s" % (key_expr(kk, m), val_expr(vv)) for kk, vv in op[2]) + "}"
             body = '%s = %s; print(("ev", %d, "lit", %s.len()));' % (m, lit, i, m)
+        elif k == "biglit":
+            # entries: numbers 0..n-1 (with `dup` extra duplicates of key 0 at the end, last one wins), values = key + 0.5
+            ents = ["%d: %d.5" % (j, j) for j in range(op[2] - op[3])] + ["0: %d.25" % (900 + j) for j in range(op[3])]
+            body = '%s = {%s}; print(("ev", %d, "biglit", %s.len(), %s.get(0), %s.get(%d), %s.get(%d)));' % (
+                m, ", ".join(ents), i, m, m, m, op[2] - op[3] - 1, m, 64)
         elif k == "churn":
             e("{ var junk = []; for ci in 0..%d { junk.push((ci, [ci], \"c\" + \"h\")); } }" % op[1])
             continue
@@ -320,6 +329,14 @@ def model(ir):
             ev.append((i, "multi", "values", [enc_model(vv) for _, vv in mp]))
         elif k == "items":
             ev.append((i, "multi", "items", [{"t": [enc_model(kk), enc_model(vv)]} for kk, vv in mp]))
+        elif k == "biglit":
+            n, dup = op[2], op[3]
+            new = [(("n", float(j)), ("n", j + 0.5)) for j in range(n - dup)]
+            if dup:
+                new[0] = (("n", 0.0), ("n", 900 + dup - 1 + 0.25))
+            maps[op[1]] = new
+            probes.inc("big_literal")
+            ev.append((i, "plain", [num(i), s("biglit"), num(len(new)), enc_model(new[0][1]), enc_model(new[n - dup - 1][1]), enc_model(new[64][1])]))
         elif k == "lit":
             if any(kk in UNHASHABLE for kk, _ in op[2]):
                 probes.inc("unhashable_rejected_in_literal")
@@ -378,8 +395,8 @@ class C12:
     RULE = ("case = generated operation history (8-80 ops: literal construction with duplicate/unhashable keys, insert, remove, get, "
             "has_key, clear, len, keys, values, items) on 1-3 maps over a per-history sub-pool of a 44-key catalogue in which equal "
             "keys are built differently (1, 1.0, 2-1; 0, -0, 0*-1; \"ab\" literal / concatenated / interpolated / sliced; equal tuples "
-            "and nested tuples built separately; tuples of classes; two distinct classes with one name; ranges; inf, NaN) plus 12 kinds of "
-            "unhashable keys (fresh and variable-held); keys and values are referenced only by the map; each history runs under collect-at-every-allocation and "
+            "and nested tuples built separately; tuples of classes; two distinct classes with one name; ranges; inf, NaN) plus 15 kinds of "
+            "unhashable keys (fresh, variable-held, and the map itself / containers of it); literals with 120-255 entries; keys and values are referenced only by the map; each history runs under collect-at-every-allocation and "
             "under a PRNG collection tape (both with quarantine: premature reclaim = use-after-reclaim event) and in the plain release "
             "build. non-trivial = the history has >= 1 overwrite of an equal key, hit or removal; distinct = distinct history hash")
     COMPONENTS = {"real": ["hash_map_* natives, BuildHashMap", "Value::hash / Value::eq / tuple hashing", "collector (mark/sweep of maps, keys, values)", "compiler, VM"],
